@@ -25,11 +25,16 @@ for prop in sys.argv[2:]:
         for f in os.listdir(src):
             if os.path.isfile(os.path.join(src, f)) and os.path.getsize(os.path.join(src, f)) < 200000:
                 shutil.copy(os.path.join(src, f), dst)
-        assert subprocess.run(["git", "-C", "/repo", "status", "--porcelain", "--untracked-files=no"], capture_output=True, text=True).stdout.strip() == "", "repo not clean"
-        subprocess.run(["git", "-C", "/repo", "apply", os.path.join(dst, "patch.diff")], check=True)
+        E = "/tmp/evalrepo"   # scratch worktree of /repo at HEAD (VERIF_REPO override), so /repo itself stays untouched
+        if not os.path.isdir(E):
+            subprocess.run(["git", "-C", "/repo", "worktree", "add", "-q", "--detach", E, "HEAD"], check=True)
+        head = subprocess.run(["git", "-C", "/repo", "rev-parse", "HEAD"], capture_output=True, text=True).stdout.strip()
+        subprocess.run(["git", "-C", E, "checkout", "-q", "--detach", head], check=True)
+        subprocess.run(["git", "-C", E, "checkout", "-q", "--", "."], check=True)
+        subprocess.run(["git", "-C", E, "apply", os.path.join(dst, "patch.diff")], check=True)
         t0 = time.time()
-        r = subprocess.run(["./check", prop, "--tier", "quick"], cwd=VERIF, capture_output=True, text=True)
-        subprocess.run(["git", "-C", "/repo", "checkout", "--", "."], check=True)
+        r = subprocess.run(["./check", prop, "--tier", "quick"], cwd=VERIF, capture_output=True, text=True, env=dict(os.environ, VERIF_REPO=E))
+        subprocess.run(["git", "-C", E, "checkout", "-q", "--", "."], check=True)
         viol = [l for l in r.stdout.splitlines() if l.startswith("VIOLATION")]
         what = [l for l in r.stderr.splitlines() if l.startswith("violation:")]
         parts = [l for l in r.stderr.splitlines() if l.startswith("part ")]
